@@ -27,7 +27,7 @@ CLAIMED = {
   "structural lint of the generator and static parse of its embedded template", "DESIGN.md §2 C18"),
  "C19": ("other",
   "Structural clauses of debugger transparency: the debugger hooks and session API store only into debugger-owned state (SSA store targets, with interprocedural resolution of local maps), the plain and debugger execution loops are siblings, the breakpoint test dominates every mode-dependent 'keep running' return, the terminate event is deferred before execution, the breakpoint placement walk never prunes, the cancellable channel-operation variants (the ones a debugged program runs) store reflect's ok, and the two kinds of breakpoint flags are written only in their own section of SetBreakpoints. Equality of outputs under arbitrary stepping sequences and event ordering are NOT decided.",
-  "One frozen exception: SetBreakpoints forces lazy generation of exec closures through setExec (idempotent). Fifth round: R19.9 (debugger detached at the end of the session), R19.10 (= R06.10 over the debugger's functions), R19.7 reports merged flags.",
+  "(The former frozen exception - SetBreakpoints forcing the lazy generation of exec closures through setExec - was a defect: D94.) Fifth round: R19.9 (debugger detached at the end of the session), R19.10 (= R06.10 over the debugger's functions), R19.7 reports merged flags.",
   "non-interference by store-target classification on SSA + go/cfg dominance", "DESIGN.md §2 C19"),
 
  "C02": ("other",
@@ -93,6 +93,32 @@ NOT_APPLICABLE = {
 }
 
 PENDING = "check not built yet in this revision (designed in DESIGN.md §2; it will be claimed once its rules are implemented)"
+
+
+# sixth-round additions to the level notes (rules added from the round-6 seeds and reports; DESIGN.md section 2, "Sixth round")
+SIXTH = {
+ "C01": "R01.3 helper clause, R01.30 (composite literal built apart from its destination), R01.31/R01.32 (return statement, cfg and callBin agree on direct stores; found D98), R01.33 (return f() forwards every value; D99), R01.34 (declared functions as values; D104).",
+ "C02": "R02.13 (no dead class case), R02.14 (no process-wide memo), R02.15, R02.16 (unsigned kinds not read as signed), R02.17 (nil comparison selects the non-nil operand; D97), R02.18 (switch tag never converted; D100).",
+ "C03": "R03.16 (= R02.14), R03.17 (acceptance independent of the operator), R03.18 (folders give fresh values), R03.19 (sign test in the unsigned case), R03.20 (= R02.16).",
+ "C04": "R04.1 through helpers, R04.13 for every generator, R04.17 (literals populate a value of their own), R04.18 (= R07.7), R04.19 (literal whose address is taken; D93), R04.20 (interface conversion copies; D92), R04.21 (append spreads by the ellipsis; D95), R04.22 (temporaries typed by the value; D96). The frozen exception of R04.8 mentioned above was removed in the fifth round (D74).",
+ "C05": "R05.11 pointer receivers (D91), R05.12 (every exit completes v, ok), R05.13, R05.14, R05.15 (= R04.20), R05.16 (failed single-value assertion panics; D101), R05.17 (type switch on interface values; D102), R05.18 (shallowest promoted member; D103).",
+ "C06": "R06.2 consumer clause (the deferred list is not replaced), R06.4 no exit between the deferred calls and the test of recovered.",
+ "C07": "R07.1 through helpers, R07.19 (= R05.6), R07.20 (= R04.13 on callBin), R07.21 (= R01.34).",
+ "C08": "R08.10 (receive status from the receive operation), R08.11 (callbacks write only their own frame; D90), R08.12 (= R05.11; D91), R08.13 (= R04.20; D92).",
+ "C09": "R09.8 (= R08.1 on the generators creating frames or host callbacks).",
+ "C10": "R10.6 (= R06.2 consumer clause: a cancelled frame runs its deferred calls).",
+ "C11": "R11.13 (every returned program is compiled by the call); R11.4 has one named exception (the debugger's closure generation, D94).",
+ "C12": "R12.17 (representable dominates convertConst), R12.18, R12.19 (registration after the checking passes), R12.20 (division by constant zero; D105), R12.21 (return arity; D106).",
+ "C13": "R13.5 overrides unconditional on the streams.",
+ "C15": "R15.14 (every variable reference is a dependency).",
+ "C16": "R16.5 examines disjunctions, R16.8 (= R02.14).",
+ "C17": "R17.14 (the constraint evaluator remembers nothing).",
+ "C18": "R18.10 (types spelled by the qualified writer), R18.11 (no state between extractions).",
+ "C19": "R19.11 (no table keyed by a code address), R19.12 (frame debug data never dropped), R19.13 (no code generation from arbitrary nodes; D94).",
+}
+for _k, _v in SIXTH.items():
+    c = CLAIMED[_k]
+    CLAIMED[_k] = (c[0], c[1], c[2] + " Sixth round: " + _v, c[3], c[4])
 
 ids = [json.loads(l)["id"] for l in open(V + "/properties.jsonl")]
 checks, na = [], []
